@@ -268,6 +268,21 @@ def step (j : Json) : Json :=
       match parse c [] (unhex (getStr j "data")) 0 with
       | .ok (v, pos) => Json.mkObj [("ok", valJson v), ("pos", toJson pos)]
       | .error e => Json.mkObj [("err", Json.str e.name)]
+  | "read_records" =>
+    -- the layout-based reader (`Model/Product.lean`): addresses of every line record, or the error class
+    match readImageRecords (unhex (getStr j "file")) (getNat j "rpc") with
+    | .ok (_, recs) =>
+      let row (r : Val) : Json := match intAt r ["record_start"], intAt r ["data", "start"], intAt r ["data", "stop"] with
+        | .ok a, .ok b, .ok c => Json.arr #[toJson a, toJson b, toJson c]
+        | _, _, _ => Json.null
+      Json.mkObj [("ok", Json.arr (recs.map row).toArray)]
+    | .error e => Json.mkObj [("err", Json.str e.name)]
+  | "encode_image" =>
+    -- `caching.encode(open_image(...))` before json.dumps; float tokens are markers the harness evaluates with CPython
+    let fr : FloatRepr := { ofTok := fun t => "!f:" ++ t, mulTok := fun t f => "!fm:" ++ t ++ "*" ++ f, mulInt := fun v f => "!im:" ++ toString v ++ "*" ++ f }
+    match encodeImage fr (getStr j "root") (unhex (getStr j "file")) (getStr j "name") (getNat j "rpc") with
+    | .ok d => Json.mkObj [("ok", pyToJson d)]
+    | .error e => Json.mkObj [("err", Json.str e.name)]
   | "open_image" =>
     match openImageFile (unhex (getStr j "file")) (getStr j "name") (getNat j "rpc") with
     | .ok (name, g) => Json.mkObj [("ok", Json.mkObj [("name", Json.str name), ("image", imageGroupJson g)])]
